@@ -1352,6 +1352,13 @@ cdef class ParticleArray:
 
         """
         cdef BaseArray src_array, dst_array
+        # The indices are particle indices.  copy_subset takes a missing
+        # end_index to be the length of the array in values, which is the
+        # number of particles only for stride 1: resolve the defaults here.
+        if start_index < 0:
+            start_index = 0
+        if end_index < 0:
+            end_index = self.get_number_of_particles()
         for prop_name in source.properties:
             if prop_name in self.properties:
                 src_array = source.get_carray(prop_name)
